@@ -18,16 +18,14 @@ type Groups<T> = BTreeMap<GroupKey, HashMap<usize, T>>;
 
 pub struct AggregateExecutionEngine {
     group_aggregators: Groups<GroupAggregator>,
-    group_values: Groups<Value>,
-    distinct_values: DistinctValues
+    group_values: Groups<Value>
 }
 
 impl AggregateExecutionEngine {
     pub fn new() -> AggregateExecutionEngine {
         AggregateExecutionEngine {
             group_aggregators: Groups::new(),
-            group_values: Groups::new(),
-            distinct_values: DistinctValues::new()
+            group_values: Groups::new()
         }
     }
 
@@ -267,6 +265,7 @@ impl AggregateExecutionEngine {
         let num_rows = result_rows_by_column[0].len();
 
         let mut result_rows = Vec::new();
+        let mut distinct_values = DistinctValues::new();
         let mut group_key_iterator = self.group_values.keys();
         let mut group_value_iterator = self.group_values.values();
 
@@ -291,10 +290,11 @@ impl AggregateExecutionEngine {
                     continue;
                 }
 
-                if aggregate_statement.distinct {
-                    if !self.distinct_values.add(&result_columns) {
-                        continue;
-                    }
+            }
+
+            if aggregate_statement.distinct {
+                if !distinct_values.add(&result_columns) {
+                    continue;
                 }
             }
 
